@@ -3,6 +3,7 @@ package grpc2
 import (
 	"fmt"
 	"regexp"
+	"runtime/debug"
 	"sort"
 	"strings"
 
@@ -328,7 +329,7 @@ func runC32Once(cs c32Case, cutTime uint64, controlled bool) (string, []lib.Prob
 			return hist + " not-quiescent", nil
 		}
 		c32Stats.panics++
-		if c32Ctx != nil && c32Stats.panics <= 2 {
+		if c32Ctx != nil && c32Stats.panics <= 1 {
 			c32Ctx.Note("not judged, run panics: %s script %s history %s/p%d cut t=%d: %s", cs.Cfg.Name(), scriptString(cs.Ops), hist, cs.Prefix, cutTime, msg)
 		}
 		return hist + " run-panics(not-judged)", nil
@@ -388,34 +389,46 @@ func enumC32(c *lib.Ctx, yield func(c32Case) bool) {
 		}
 	}
 	// (2) control histories started at every cut, traffic in flight
-	var ctlAlpha []simx.MemOp // write line, write 4 B, masked write, read line, read 4 B on two lines
+	var ctlAlpha []simx.MemOp // thorough: read4, read line, write line, write4@8, masked write; quick: without the masked write
 	for i, op := range alpha2 {
-		if k := i % 7; k == 0 || k == 2 || k == 3 || k == 5 || k == 6 {
+		k := i % 7
+		if k == 0 || k == 2 || k == 3 || k == 5 || (k == 6 && c.Thorough()) {
 			ctlAlpha = append(ctlAlpha, op)
 		}
 	}
-	stageSets := [][]string{{}, {"wb"}, {"wt-through"}, {"rob"}, {"wt-evict", "wb"}, {"wb", "wb"}, {"rob", "wb"}}
-	if c.Thorough() {
-		stageSets = append(stageSets, []string{"wt-around"}, []string{"wt-evict"}, []string{"wt-through", "wb"}, []string{"rob", "wt-through", "wb"})
+	type ctlCfg struct {
+		stages []string
+		mem    string
 	}
-	mems := []string{"ideal", "banked2", "dram-DDR4"}
+	var cfgs []ctlCfg
 	if c.Thorough() {
-		mems = append(mems, "banked1", "dram-HBM2-close")
-	}
-	for _, st := range stageSets {
-		for mi, m := range mems {
-			if !c.Thorough() && mi > 0 && len(st) > 1 {
-				continue // quick: two-level stacks over ideal memory only
+		for _, st := range [][]string{{}, {"wb"}, {"wt-through"}, {"rob"}, {"wt-evict", "wb"}, {"wb", "wb"}, {"rob", "wb"},
+			{"wt-around"}, {"wt-evict"}, {"wt-through", "wb"}, {"rob", "wt-through", "wb"}} {
+			for _, m := range []string{"ideal", "banked2", "dram-DDR4", "banked1", "dram-HBM2-open"} {
+				cfgs = append(cfgs, ctlCfg{st, m})
 			}
-			cfg := simx.ChainCfg{Stages: st, Memory: m, NumMem: 1, PortBuf: 4, Lat: 1, MSHR: 2, Eager: true}
-			nCtl := len(st) + 1
-			for _, h := range c32Histories {
-				for p := 1; p <= nCtl; p++ {
-					if !enumScripts(ctlAlpha, 2, func(ops []simx.MemOp) bool {
-						return yield(c32Case{Cfg: cfg, Ops: ops, History: h, Prefix: p, Cut: -1})
-					}) {
-						return
-					}
+		}
+	} else {
+		for _, st := range [][]string{{}, {"wb"}, {"wt-through"}, {"rob"}, {"wt-evict", "wb"}, {"wb", "wb"}} {
+			cfgs = append(cfgs, ctlCfg{st, "ideal"})
+		}
+		for _, m := range []string{"banked2", "dram-DDR4"} {
+			cfgs = append(cfgs, ctlCfg{[]string{}, m}, ctlCfg{[]string{"wb"}, m})
+		}
+	}
+	hists := c32Histories
+	if !c.Thorough() {
+		hists = []string{"reset", "pause-reset-enable", "drain-reset-enable", "pause-enable"}
+	}
+	for _, cc := range cfgs {
+		cfg := simx.ChainCfg{Stages: cc.stages, Memory: cc.mem, NumMem: 1, PortBuf: 4, Lat: 1, MSHR: 2, Eager: true}
+		nCtl := len(cc.stages) + 1
+		for _, h := range hists {
+			for p := 1; p <= nCtl; p++ {
+				if !enumScripts(ctlAlpha, 2, func(ops []simx.MemOp) bool {
+					return yield(c32Case{Cfg: cfg, Ops: ops, History: h, Prefix: p, Cut: -1})
+				}) {
+					return
 				}
 			}
 		}
@@ -440,7 +453,7 @@ func init() {
 		ID:    "C32",
 		Level: "exploration",
 		Rule: "small-scope simulation on the real components with a recording tracer on every component and incoming+outgoing buffer tracing on every port. (1) Every assembly of the C33 catalogue x every k=2 script over {read4@0, read4@8, read line, write line, write4@0, write4@8, masked write} x 2 [thorough 3] same-set lines, plus k=3 on cache-bearing eager assemblies over ideal memory. " +
-			"(2) Control histories {reset, pause-reset-enable, drain-reset-enable, reset-twice, pause-enable, drain-enable} addressed to every top-down prefix of the chain's control ports (caches/ROB first, memory last; pauses and drains top-down, resets and enables bottom-up) on stacks {none, wb, wt-through, rob, wt-evict>wb, wb>wb, rob>wb [thorough +4]} over {ideal, banked2, DDR4 [thorough +banked1, HBM2-close]}, x every k=2 script over 5 operations x 2 lines issued eagerly, with the history started at EVERY distinct event time of the uncontrolled run (traffic in flight). " +
+			"(2) Control histories {reset, pause-reset-enable, drain-reset-enable, pause-enable [thorough + reset-twice, drain-enable]} addressed to every top-down prefix of the chain's control ports (caches/ROB first, memory last; pauses and drains top-down, resets and enables bottom-up) on stacks {none, wb, wt-through, rob, wt-evict>wb, wb>wb} over ideal memory and {none, wb} over {banked2, DDR4} [thorough: 11 stacks x 5 memories], x every k=2 script over 4 [5] operations x 2 lines issued eagerly, with the history started at EVERY distinct event time of the uncontrolled run (traffic in flight). " +
 			"(3) A translation scenario: scripted requester -> real TLB (1 set x 2 ways, MSHR 2, latency {2,4}) -> stub provider (latency {1,6}), every k=2 [thorough 3] sequence over 4 virtual addresses on 3 pages, without control traffic and with each of the six histories on the TLB's control port started at every cut. " +
 			"Oracle, once the engine has no event left: no task ID is started twice; every started task is ended exactly once with end >= start; every milestone and tag names a task that was started and carries a time inside that task's [start, end]; every location hosts tasks of one kind only. Ends of never-started tasks, and in histories containing a Reset second ends of already ended tasks (both documented as harmless products of the blanket end-on-reset helpers), are counted, not judged; a task's lifetime is [start, first end]. Runs that panic or do not settle are counted, not judged. A case = (assembly, script, history, prefix); cut_points_explored counts the controlled runs.",
 		Sharded:     true,
@@ -452,6 +465,9 @@ func init() {
 		},
 		Run: func(c *lib.Ctx) {
 			c32Ctx = c
+			// every run builds a fresh engine and assembly: let the heap grow instead of
+			// collecting every few runs (the workers are short-lived)
+			defer debug.SetGCPercent(debug.SetGCPercent(1000))
 			lib.Cases(c, func(y func(c32Case) bool) { enumC32All(c, y) }, runC32)
 			lib.CleanScratch()
 			c.Add("tasks_seen", c32Stats.tasks)
